@@ -299,7 +299,7 @@ def run_model(pid, imports, harness, pairs, shard=None, procs=16, timeout=1500):
         shards.append(cur)
     nfull = len(shards)
     shards += solo
-    jobs = [(k, pid, imports, harness, [pairs[i] for i in idx], timeout if k < nfull else 60) for k, idx in enumerate(shards)]
+    jobs = [(k, pid, imports, harness, [pairs[i] for i in idx], timeout if k < nfull else 25) for k, idx in enumerate(shards)]
     with ThreadPoolExecutor(max_workers=procs) as ex:
         res = list(ex.map(_run_shard, jobs))
     disagree, violate, details, errors = [], [], {}, []
